@@ -3,6 +3,7 @@ package c16
 import (
 	"context"
 	"errors"
+	"fmt"
 	"testing"
 	"testing/synctest"
 	"time"
@@ -29,6 +30,29 @@ import (
 
 const witnessBatchDefault = 96 << 20 // pruner's defaultTargetBatchByteSize
 
+// A witness never aborts the process: the tree under test may be a fixed or a mutated one on which its set-up
+// no longer works the same way. abortWitness unwinds to runWitness, which records "not reproduced".
+type witnessAbort string
+
+func abortWitness(format string, a ...any) { panic(witnessAbort(fmt.Sprintf(format, a...))) }
+
+// runWitness runs body (which returns whether the finding reproduced) for a key that is listed as known.
+func runWitness(t *testing.T, key string, body func() bool) {
+	if !stats.Known(key) {
+		t.Skipf("%s is not listed as known", key)
+	}
+	reproduced := false
+	func() {
+		defer func() {
+			if r := recover(); r != nil {
+				t.Logf("%s: witness could not be evaluated on this tree: %v", key, r)
+			}
+		}()
+		reproduced = body()
+	}()
+	stats.KnownFindingWitness(t, key, reproduced)
+}
+
 // witnessBlock appends a hand-made block with the given diff to ch.
 func witnessBlock(ch *gen.Chain, ver string, d *core.StateDiff, classes map[felt.Felt]core.ClassDefinition) *gen.Block {
 	return witnessBlockAt(ch, ver, d, classes, chainEpoch+uint64(len(ch.Blocks)))
@@ -41,7 +65,7 @@ func witnessBlockAt(ch *gen.Chain, ver string, d *core.StateDiff, classes map[fe
 	}
 	post := pre.Clone()
 	if err := post.Apply(num, ver, d, classes, ch.U.CasmV2Of); err != nil {
-		stats.HarnessError("witness block %d: %v", num, err)
+		abortWitness("witness block %d: %v", num, err)
 	}
 	one := gen.F(1)
 	h := &core.Header{ParentHash: &ph, Number: num, SequencerAddress: &one, Timestamp: ts, ProtocolVersion: ver,
@@ -89,7 +113,7 @@ func newWitness() *witness {
 	for _, b := range w.ch.Blocks {
 		for _, n := range []*node.Node{w.twin, w.n} {
 			if err := n.Store(b); err != nil {
-				stats.HarnessError("witness: store block %d: %v", b.Num(), err)
+				abortWitness("witness: store block %d: %v", b.Num(), err)
 			}
 		}
 	}
@@ -102,7 +126,7 @@ func (w *witness) restartOn(d db.KeyValueStore) *node.Node {
 	n := node.New(false, d, w.ch.U.Net, blockchain.WithRetentionFloor(floor),
 		blockchain.WithRunningEventFilterInitializer(pruner.InitializeRunningEventFilter))
 	if err := floor.Seed(d); err != nil {
-		stats.HarnessError("witness: Seed: %v", err)
+		abortWitness("witness: Seed: %v", err)
 	}
 	return n
 }
@@ -121,35 +145,34 @@ func (w *witness) slotAt(n *node.Node, num uint64) (string, error) {
 // restarts with oldest retained block 0 (RequireRetained(3) == nil, floor seeded to 0), yet block 3 cannot be
 // found by hash any more and the legacy state at block 0 answers A[slot] with the HEAD value instead of 1.
 func TestKnownCrashBetweenPruneCommits(t *testing.T) {
-	if !stats.Known(kfCrashMidPrune) {
-		t.Skipf("%s is not listed as known", kfCrashMidPrune)
-	}
-	w := newWitness()
-	var image *memory.Database
-	w.d.arm(func(k int) {
-		if k == 1 {
-			image = w.d.inner.Copy()
+	runWitness(t, kfCrashMidPrune, func() bool {
+		w := newWitness()
+		var image *memory.Database
+		w.d.arm(func(k int) {
+			if k == 1 {
+				image = w.d.inner.Copy()
+			}
+		})
+		if _, _, err := pruner.PruneUpto(context.Background(), w.d, 10, witnessBatchDefault); err != nil {
+			abortWitness("witness: PruneUpto: %v", err)
 		}
+		commits := w.d.count()
+		w.d.arm(nil)
+		if image == nil {
+			abortWitness("witness: PruneUpto made no commit")
+		}
+		n := w.restartOn(newFdb(image))
+		oldestBlk, _, _ := oldest(n.DB)
+		retained3 := pruner.RequireRetained(n.DB, 3)
+		_, errByHash := n.BC.BlockNumberByHash(w.ch.Blocks[3].B.Hash)
+		got, errState := w.slotAt(n, 0)
+		want, _ := w.slotAt(w.twin, 0)
+		reproduced := commits >= 2 && oldestBlk == 0 && retained3 == nil &&
+			(errors.Is(errByHash, db.ErrKeyNotFound) || (errState == nil && got != want))
+		t.Logf("%s: PruneUpto(10) made %d commits; image after commit 1: oldest retained %d, RequireRetained(3)=%v, BlockNumberByHash(block 3)=%v, state@0 A[slot]=%s (%v), twin %s (reproduced=%v)",
+			kfCrashMidPrune, commits, oldestBlk, retained3, errByHash, got, errState, want, reproduced)
+		return reproduced
 	})
-	if _, _, err := pruner.PruneUpto(context.Background(), w.d, 10, witnessBatchDefault); err != nil {
-		stats.HarnessError("witness: PruneUpto: %v", err)
-	}
-	commits := w.d.count()
-	w.d.arm(nil)
-	if image == nil {
-		stats.HarnessError("witness: PruneUpto made no commit")
-	}
-	n := w.restartOn(newFdb(image))
-	oldestBlk, _, _ := oldest(n.DB)
-	retained3 := pruner.RequireRetained(n.DB, 3)
-	_, errByHash := n.BC.BlockNumberByHash(w.ch.Blocks[3].B.Hash)
-	got, errState := w.slotAt(n, 0)
-	want, _ := w.slotAt(w.twin, 0)
-	reproduced := commits >= 2 && oldestBlk == 0 && retained3 == nil &&
-		(errors.Is(errByHash, db.ErrKeyNotFound) || (errState == nil && got != want))
-	t.Logf("%s: PruneUpto(10) made %d commits; image after commit 1: oldest retained %d, RequireRetained(3)=%v, BlockNumberByHash(block 3)=%v, state@0 A[slot]=%s (%v), twin %s (reproduced=%v)",
-		kfCrashMidPrune, commits, oldestBlk, retained3, errByHash, got, errState, want, reproduced)
-	stats.KnownFindingWitness(t, kfCrashMidPrune, reproduced)
 }
 
 // TestKnownCancelledPruneDropsParentMapping: PruneUpto(10) with a 1-byte batch target commits once per block.
@@ -158,57 +181,56 @@ func TestKnownCrashBetweenPruneCommits(t *testing.T) {
 // the oldest retained block and the documented carve-out (hash->number of the block just below it, needed by
 // StateAtBlockHash(parent)) is gone: state at block 2 opens by number, not by hash.
 func TestKnownCancelledPruneDropsParentMapping(t *testing.T) {
-	if !stats.Known(kfCancelParentMapping) {
-		t.Skipf("%s is not listed as known", kfCancelParentMapping)
-	}
-	check := func(w *witness, d db.KeyValueStore) (uint64, error, error) {
-		n := w.restartOn(d)
-		o, _, _ := oldest(n.DB)
-		if o == 0 {
-			return 0, nil, nil
+	runWitness(t, kfCancelParentMapping, func() bool {
+		check := func(w *witness, d db.KeyValueStore) (uint64, error, error) {
+			n := w.restartOn(d)
+			o, _, _ := oldest(n.DB)
+			if o == 0 {
+				return 0, nil, nil
+			}
+			_, errNum := w.slotAt(n, o-1)
+			_, _, errHash := n.BC.StateAtBlockHash(w.ch.Blocks[o-1].B.Hash)
+			return o, errNum, errHash
 		}
-		_, errNum := w.slotAt(n, o-1)
-		_, _, errHash := n.BC.StateAtBlockHash(w.ch.Blocks[o-1].B.Hash)
-		return o, errNum, errHash
-	}
-	// (a) cancellation
-	w := newWitness()
-	ctx, cancel := context.WithCancel(context.Background())
-	defer cancel()
-	w.d.arm(func(k int) {
-		if k == 3 {
-			cancel()
+		// (a) cancellation
+		w := newWitness()
+		ctx, cancel := context.WithCancel(context.Background())
+		defer cancel()
+		w.d.arm(func(k int) {
+			if k == 3 {
+				cancel()
+			}
+		})
+		_, kept, err := pruner.PruneUpto(ctx, w.d, 10, 1)
+		w.d.arm(nil)
+		if err != nil {
+			abortWitness("witness: PruneUpto: %v", err)
 		}
+		oa, numA, hashA := check(w, w.d)
+		cancelRepro := kept > 0 && kept < 10 && oa == kept && numA == nil && errors.Is(hashA, db.ErrKeyNotFound)
+		// (b) crash image after the third commit
+		w2 := newWitness()
+		var image *memory.Database
+		w2.d.arm(func(k int) {
+			if k == 3 {
+				image = w2.d.inner.Copy()
+			}
+		})
+		if _, _, err := pruner.PruneUpto(context.Background(), w2.d, 10, 1); err != nil {
+			abortWitness("witness: PruneUpto: %v", err)
+		}
+		w2.d.arm(nil)
+		crashRepro := false
+		var ob uint64
+		var numB, hashB error
+		if image != nil {
+			ob, numB, hashB = check(w2, newFdb(image))
+			crashRepro = ob > 0 && ob < 10 && numB == nil && errors.Is(hashB, db.ErrKeyNotFound)
+		}
+		t.Logf("%s: cancelled at commit 3: oldest kept %d, state at %d by number: %v, by hash: %v (reproduced=%v); crash image after commit 3: oldest kept %d, by number: %v, by hash: %v (reproduced=%v)",
+			kfCancelParentMapping, oa, oa-1, numA, hashA, cancelRepro, ob, numB, hashB, crashRepro)
+		return cancelRepro || crashRepro
 	})
-	_, kept, err := pruner.PruneUpto(ctx, w.d, 10, 1)
-	w.d.arm(nil)
-	if err != nil {
-		stats.HarnessError("witness: PruneUpto: %v", err)
-	}
-	oa, numA, hashA := check(w, w.d)
-	cancelRepro := kept > 0 && kept < 10 && oa == kept && numA == nil && errors.Is(hashA, db.ErrKeyNotFound)
-	// (b) crash image after the third commit
-	w2 := newWitness()
-	var image *memory.Database
-	w2.d.arm(func(k int) {
-		if k == 3 {
-			image = w2.d.inner.Copy()
-		}
-	})
-	if _, _, err := pruner.PruneUpto(context.Background(), w2.d, 10, 1); err != nil {
-		stats.HarnessError("witness: PruneUpto: %v", err)
-	}
-	w2.d.arm(nil)
-	crashRepro := false
-	var ob uint64
-	var numB, hashB error
-	if image != nil {
-		ob, numB, hashB = check(w2, newFdb(image))
-		crashRepro = ob > 0 && ob < 10 && numB == nil && errors.Is(hashB, db.ErrKeyNotFound)
-	}
-	t.Logf("%s: cancelled at commit 3: oldest kept %d, state at %d by number: %v, by hash: %v (reproduced=%v); crash image after commit 3: oldest kept %d, by number: %v, by hash: %v (reproduced=%v)",
-		kfCancelParentMapping, oa, oa-1, numA, hashA, cancelRepro, ob, numB, hashB, crashRepro)
-	stats.KnownFindingWitness(t, kfCancelParentMapping, cancelRepro || crashRepro)
 }
 
 // TestKnownMinAgeSampleStaleAfterReorg drives the real service (pruner.Run inside a synctest bubble, virtual
@@ -217,62 +239,61 @@ func TestKnownCancelledPruneDropsParentMapping(t *testing.T) {
 // blocks 16 and 17 by blocks that are 100 s old and the chain grows to 19 while the L1 head is ahead: the
 // L2 path computes min(sample 17, head-1) and prunes the replacement block 16, which is younger than min-age.
 func TestKnownMinAgeSampleStaleAfterReorg(t *testing.T) {
-	if !stats.Known(kfMinAgeStaleAfterReorg) {
-		t.Skipf("%s is not listed as known", kfMinAgeStaleAfterReorg)
-	}
-	reproduced := false
-	bubble(t, func() {
-		now := uint64(chainEpoch + 10000)
-		time.Sleep(time.Unix(int64(now), 0).Sub(time.Now()))
-		u := &gen.Universe{Net: &networks.Sepolia}
-		ch := gen.NewChain(u, gen.Opts{})
-		d := newFdb(memory.New())
-		n := node.New(false, d, u.Net)
-		empty := func(ts uint64) *gen.Block {
-			df := core.EmptyStateDiff()
-			b := witnessBlockAt(ch, "0.13.2", &df, nil, ts)
-			if err := n.Store(b); err != nil {
-				stats.HarnessError("witness: store %d: %v", b.Num(), err)
+	runWitness(t, kfMinAgeStaleAfterReorg, func() bool {
+		reproduced := false
+		bubble(t, func() {
+			now := uint64(chainEpoch + 10000)
+			time.Sleep(time.Unix(int64(now), 0).Sub(time.Now()))
+			u := &gen.Universe{Net: &networks.Sepolia}
+			ch := gen.NewChain(u, gen.Opts{})
+			d := newFdb(memory.New())
+			n := node.New(false, d, u.Net)
+			empty := func(ts uint64) *gen.Block {
+				df := core.EmptyStateDiff()
+				b := witnessBlockAt(ch, "0.13.2", &df, nil, ts)
+				if err := n.Store(b); err != nil {
+					abortWitness("witness: store %d: %v", b.Num(), err)
+				}
+				return b
 			}
-			return b
-		}
-		for i := uint64(0); i < 18; i++ {
-			empty(chainEpoch + i) // about 10000 s old
-		}
-		cf := cfg{retained: 1, l2Per: 1, minAge: time.Hour}
-		s, err := startSession(d, cf, u) // start-up sample: no block within min-age -> floor sample = head = 17
-		if err != nil {
-			stats.HarnessError("witness: %v", err)
-		}
-		defer s.stop()
-		for i := 0; i < 2; i++ { // reorg: blocks 17 and 16 are undone
-			if err := s.n.BC.RevertHead(); err != nil {
-				stats.HarnessError("witness: revert: %v", err)
+			for i := uint64(0); i < 18; i++ {
+				empty(chainEpoch + i) // about 10000 s old
 			}
-			ch.Blocks = ch.Blocks[:len(ch.Blocks)-1]
-		}
-		if err := s.n.BC.SetL1Head(&core.L1Head{BlockNumber: 26, BlockHash: gen.FP(1), StateRoot: gen.FP(2)}); err != nil {
-			stats.HarnessError("witness: SetL1Head: %v", err)
-		}
-		var young *gen.Block
-		for num := 16; num <= 19; num++ {
-			df := core.EmptyStateDiff()
-			b := witnessBlockAt(ch, "0.13.2", &df, nil, now-100+uint64(num-16))
-			if err := s.n.Store(b); err != nil {
-				stats.HarnessError("witness: store %d: %v", b.Num(), err)
+			cf := cfg{retained: 1, l2Per: 1, minAge: time.Hour}
+			s, err := startSession(d, cf, u) // start-up sample: no block within min-age -> floor sample = head = 17
+			if err != nil {
+				abortWitness("witness: %v", err)
 			}
-			if num == 16 {
-				young = b
+			defer s.stop()
+			for i := 0; i < 2; i++ { // reorg: blocks 17 and 16 are undone
+				if err := s.n.BC.RevertHead(); err != nil {
+					abortWitness("witness: revert: %v", err)
+				}
+				ch.Blocks = ch.Blocks[:len(ch.Blocks)-1]
 			}
-			s.l2.Send(b.B)
-			synctest.Wait()
-		}
-		o, _, _ := oldest(d)
-		age := uint64(time.Now().Unix()) - young.B.Timestamp
-		reproduced = o > 16 && age < 3600 && len(s.takeErrs()) == 0
-		t.Logf("%s: oldest retained block %d; replacement block 16 is %d s old (min-age 3600 s) (reproduced=%v)", kfMinAgeStaleAfterReorg, o, age, reproduced)
+			if err := s.n.BC.SetL1Head(&core.L1Head{BlockNumber: 26, BlockHash: gen.FP(1), StateRoot: gen.FP(2)}); err != nil {
+				abortWitness("witness: SetL1Head: %v", err)
+			}
+			var young *gen.Block
+			for num := 16; num <= 19; num++ {
+				df := core.EmptyStateDiff()
+				b := witnessBlockAt(ch, "0.13.2", &df, nil, now-100+uint64(num-16))
+				if err := s.n.Store(b); err != nil {
+					abortWitness("witness: store %d: %v", b.Num(), err)
+				}
+				if num == 16 {
+					young = b
+				}
+				s.l2.Send(b.B)
+				synctest.Wait()
+			}
+			o, _, _ := oldest(d)
+			age := uint64(time.Now().Unix()) - young.B.Timestamp
+			reproduced = o > 16 && age < 3600 && len(s.takeErrs()) == 0
+			t.Logf("%s: oldest retained block %d; replacement block 16 is %d s old (min-age 3600 s) (reproduced=%v)", kfMinAgeStaleAfterReorg, o, age, reproduced)
+		})
+		return reproduced
 	})
-	stats.KnownFindingWitness(t, kfMinAgeStaleAfterReorg, reproduced)
 }
 
 // migrationWitness stores the 14-block witness chain on a node WITHOUT pruning, records L1 head l1, then runs
@@ -299,15 +320,15 @@ func migrationWitness(newState bool, retained, l1 uint64, zeroWriteAt uint64) (e
 		}
 		b := witnessBlock(ch, "0.13.2", &df, classes)
 		if e := n.Store(b); e != nil {
-			stats.HarnessError("witness: store block %d: %v", i, e)
+			abortWitness("witness: store block %d: %v", i, e)
 		}
 	}
 	if e := n.BC.SetL1Head(&core.L1Head{BlockNumber: l1, BlockHash: gen.FP(1), StateRoot: gen.FP(2)}); e != nil {
-		stats.HarnessError("witness: SetL1Head: %v", e)
+		abortWitness("witness: SetL1Head: %v", e)
 	}
 	mig := historyprunner.New(retained, 0)
 	if e := mig.Before(nil); e != nil {
-		stats.HarnessError("witness: Before: %v", e)
+		abortWitness("witness: Before: %v", e)
 	}
 	_, err = mig.Migrate(context.Background(), d, u.Net, log.NewNopZapLogger())
 	_, headLookup = n.BC.BlockNumberByHash(ch.Blocks[13].B.Hash)
@@ -318,31 +339,28 @@ func migrationWitness(newState bool, retained, l1 uint64, zeroWriteAt uint64) (e
 // and by then it has already wiped the hash-keyed lookup buckets, so even the head block cannot be found by hash.
 
 func TestKnownHistoryPruneMigrationFailsOnNewState(t *testing.T) {
-	if !stats.Known(kfMigNewState) {
-		t.Skipf("%s is not listed as known", kfMigNewState)
-	}
-	err, look := migrationWitness(true, 2, 12, 0)
-	reproduced := err != nil && errors.Is(look, db.ErrKeyNotFound)
-	t.Logf("%s: trie2 backend, retained 2, L1 head 12, head 13: Migrate: %v; BlockNumberByHash(head): %v (reproduced=%v)", kfMigNewState, err, look, reproduced)
-	stats.KnownFindingWitness(t, kfMigNewState, reproduced)
+	runWitness(t, kfMigNewState, func() bool {
+		err, look := migrationWitness(true, 2, 12, 0)
+		reproduced := err != nil && errors.Is(look, db.ErrKeyNotFound)
+		t.Logf("%s: trie2 backend, retained 2, L1 head 12, head 13: Migrate: %v; BlockNumberByHash(head): %v (reproduced=%v)", kfMigNewState, err, look, reproduced)
+		return reproduced
+	})
 }
 
 func TestKnownHistoryPruneMigrationFailsOnZeroWriteToAbsentSlot(t *testing.T) {
-	if !stats.Known(kfMigZeroAbsent) {
-		t.Skipf("%s is not listed as known", kfMigZeroAbsent)
-	}
-	err, look := migrationWitness(false, 2, 12, 11) // block 11 (kept: floor 10) writes 0 to a fresh slot
-	reproduced := err != nil && errors.Is(look, db.ErrKeyNotFound)
-	t.Logf("%s: legacy backend, retained 2, L1 head 12, block 11 writes zero to a never-written slot: Migrate: %v; BlockNumberByHash(head): %v (reproduced=%v)", kfMigZeroAbsent, err, look, reproduced)
-	stats.KnownFindingWitness(t, kfMigZeroAbsent, reproduced)
+	runWitness(t, kfMigZeroAbsent, func() bool {
+		err, look := migrationWitness(false, 2, 12, 11) // block 11 (kept: floor 10) writes 0 to a fresh slot
+		reproduced := err != nil && errors.Is(look, db.ErrKeyNotFound)
+		t.Logf("%s: legacy backend, retained 2, L1 head 12, block 11 writes zero to a never-written slot: Migrate: %v; BlockNumberByHash(head): %v (reproduced=%v)", kfMigZeroAbsent, err, look, reproduced)
+		return reproduced
+	})
 }
 
 func TestKnownHistoryPruneMigrationFailsWhenFloorIsZero(t *testing.T) {
-	if !stats.Known(kfMigFloorZero) {
-		t.Skipf("%s is not listed as known", kfMigFloorZero)
-	}
-	err, look := migrationWitness(false, 12, 12, 0) // pivot 12 - retained 12 = floor 0
-	reproduced := err != nil && errors.Is(look, db.ErrKeyNotFound)
-	t.Logf("%s: legacy backend, retained 12, L1 head 12, head 13: Migrate: %v; BlockNumberByHash(head): %v (reproduced=%v)", kfMigFloorZero, err, look, reproduced)
-	stats.KnownFindingWitness(t, kfMigFloorZero, reproduced)
+	runWitness(t, kfMigFloorZero, func() bool {
+		err, look := migrationWitness(false, 12, 12, 0) // pivot 12 - retained 12 = floor 0
+		reproduced := err != nil && errors.Is(look, db.ErrKeyNotFound)
+		t.Logf("%s: legacy backend, retained 12, L1 head 12, head 13: Migrate: %v; BlockNumberByHash(head): %v (reproduced=%v)", kfMigFloorZero, err, look, reproduced)
+		return reproduced
+	})
 }
